@@ -59,15 +59,22 @@ def required_counters(tier):
     }
 
 
-MODULE_TMPL = '''{imports}
+MODULE_TMPL = '''"""module {name}"""
+{imports}
 import dataclasses
 import numpy as np
 from jaxtyping import Float
 
 MARK = "{name}"
 
+DEBUG = __debug__
+
 def f(x: Float[np.ndarray, "a"], y: Float[np.ndarray, "a"]):
     return MARK
+
+def with_assert():
+    assert False, "asserts are compiled in"
+    return "no-assert"
 
 @dataclasses.dataclass
 class D:
